@@ -33,9 +33,19 @@ def gen(args) -> list:
     evs = []
     todo = [(rnd.choice(TYPES), textgen.random_pattern(rnd.choice(TYPES), rnd)) for _ in range(n)]
     todo = [(t, textgen.random_pattern(t, rnd)) for t, _ in todo] + [(rnd.choice(TYPES), s) for s in small_texts]
+    # one worker goes through more read-only cultures than the format-info cache holds (500): creation must keep working
+    sweep = []
+    if seed % 16 == 0:
+        from pyoda_time._compatibility._culture_info import CultureInfo as _CI
+
+        for nm in textgen.culture_classes()["all"]:
+            try:
+                sweep.append(_CI.read_only(_CI(nm)))
+            except Exception:  # noqa: BLE001
+                pass
     # every standard pattern letter under every synthetic culture (their expansion is the culture's own pattern text)
     forced = [(t, letter, c) for c in cults[-4:] for t in TYPES for letter in textgen.STANDARD[t]]
-    todo = [(t, p, None) for t, p in todo] + forced
+    todo = [(t, p, None) for t, p in todo] + forced + [(rnd.choice(TYPES[:4]), rnd.choice(["HH:mm", "d", "uuuu-MM-dd", "G", "t", "+HH:mm"]), c) for c in sweep]
     for typ, ptext, forced_culture in todo:
         culture = forced_culture if forced_culture is not None else rnd.choice(cults)
         ev = {"op": "pattern", "type": typ, "pattern": cps(ptext), "culture": culture.name if culture is not None else "", "parses": []}
